@@ -174,7 +174,7 @@ def check_case(res, spec, method, allow_neg, exprs, label, consistent, limit=Non
                 msg = (f"method='lsq' stops short of the non-negative optimum: residual {r_x:.6g} against {r_z:.6g}, tensions up to "
                        f"{float(np.max(np.abs(z - zopt))):.3g} away from the minimiser (lmfit reports success)")
                 active = int(np.sum(zopt[:-1] < 1e-12))
-                if np.all(z >= -1e-12) and active >= 1 and r_x <= 1.05 * r_z:
+                if np.all(z >= -1e-12) and active >= 10 and ncol >= 60 and r_x <= 1.05 * r_z:
                     res.fail("oracle", msg + f"; {active} tensions of the minimiser are zero", replay, tag="D27-lsq-stops-short")
                 else:
                     bad.append(msg)
